@@ -361,6 +361,7 @@ func (hostileEngine) Run(ctx *fw.Ctx, cs any) {
 		ctx.Nontrivial("C01", fmt.Sprintf("%d/%s", c.Seed, conf))
 	}
 	if out.Died || !out.Completed {
+		noteNilNoStop(ctx, out, conf)
 		at := out.DiedAt
 		what := "during setup"
 		var data []byte
